@@ -143,6 +143,38 @@ def std_transfer(I, fr, t, c, pth):
                 return True
         return False
 
+    # ------------------------------------------------------------------ equality of fully known Option<integer> / integer values
+    if trait == 'std::cmp::PartialEq' and name in ('eq', 'ne') and len(args) == 2:
+        def known(v):
+            for _ in range(3):
+                if isinstance(v, Ref):
+                    v = fr._project(fr.store.get(v.root, TOP), v.proj)
+            if isinstance(v, Int):
+                return ('int', v.v)
+            if isinstance(v, Opt) and v.tag == 'none':
+                return ('none',)
+            if isinstance(v, Opt) and v.tag == 'some' and isinstance(v.payload, Int):
+                return ('some', v.payload.v)
+            return None
+        a, b = known(fr.deref_operand(args[0])), known(fr.deref_operand(args[1]))
+        if a is not None and b is not None and (a[0] == 'int') == (b[0] == 'int'):
+            fr.storev(dest, Int(int((a == b) == (name == 'eq')), 1))
+            return True
+    # ------------------------------------------------------------------ checked integer arithmetic on known values
+    if name in ('checked_sub', 'checked_add', 'checked_mul') and ('::num::<impl usize>::' in d or '::num::<impl u64>::' in d) and len(args) == 2:
+        a, b = as_int(fr.operand(args[0])), as_int(fr.operand(args[1]))
+        if a is not None and b is not None:
+            r = {'checked_sub': a - b, 'checked_add': a + b, 'checked_mul': a * b}[name]
+            fr.storev(dest, Opt('some', Int(r)) if 0 <= r < (1 << 64) else Opt('none', TOP))
+            return True
+        return False
+    # ------------------------------------------------------------------ first / last element of a known sequence
+    if name in ('first', 'last') and res.startswith('core::slice::<impl [T]>::' + name) and len(args) == 1:
+        s = seq_of(I, fr, args[0])
+        if isinstance(s, Agg):
+            fr.storev(dest, Opt('some', s.items[0 if name == 'first' else -1]) if s.items else Opt('none', TOP))
+            return True
+        return False
     # ------------------------------------------------------------------ integer conversions that cannot fail on 64-bit targets
     if name == 'try_from' and trait == 'std::convert::TryFrom' and len(args) == 1 and (c.get('self_ty') in ('usize', 'u64', 'u128') and (c.get('targs') or [None, None])[-1] in ('u64', 'usize', 'u32', 'u16', 'u8')):
         v = fr.operand(args[0])
